@@ -4,6 +4,7 @@ import (
 	"fmt"
 	"go/ast"
 	"go/types"
+	"os"
 	"sort"
 	"strings"
 
@@ -16,7 +17,9 @@ import (
 //   copy   – result of CopyMAC/CopyIP/CopyBytes/make/append/bytes.Clone/[]byte(string)/AsSlice()/As16()…, a literal
 //   alias  – anything else (an identifier, field, slice expression or other call): the stored value may
 //            alias whatever the expression aliases (possibly the caller's packet buffer)
-// Only `alias` sites are emitted, as "pkg.Func:Type.field" (no line numbers: stable under refactoring).
+// Only `alias` sites are emitted, as "pkg.Func:Type.field" (no line numbers: stable under refactoring), with " xN" appended when
+// the function has N > 1 such stores to that target.  A store of a struct VALUE that carries byte slices (packet.Addr,
+// NameEntry, …) counts like a store of its slices; composite literals of every type are walked field by field.
 //
 // A `go f(args…)` statement retains its arguments for as long as the new goroutine runs - beyond the return of the
 // handler, when the packet loop reuses its buffer.  Every byte-slice-typed argument of a go statement that is
@@ -52,6 +55,15 @@ func classify(info *types.Info, e ast.Expr) string {
 		}
 		if obj, ok := info.Uses[x].(*types.Var); ok && obj.Pkg() != nil && obj.Parent() == obj.Pkg().Scope() {
 			return "copy" // package-level constant table (EthernetBroadcast, …)
+		}
+		return "alias"
+	case *ast.SelectorExpr:
+		if id, ok := x.X.(*ast.Ident); ok {
+			if _, isPkg := info.Uses[id].(*types.PkgName); isPkg {
+				if obj, ok := info.Uses[x.Sel].(*types.Var); ok && obj.Pkg() != nil && obj.Parent() == obj.Pkg().Scope() {
+					return "copy" // package-level constant table of another package (packet.EthernetBroadcast, …)
+				}
+			}
 		}
 		return "alias"
 	case *ast.CallExpr:
@@ -90,8 +102,83 @@ func classify(info *types.Info, e ast.Expr) string {
 	return "alias"
 }
 
+// carriesBytes: a struct VALUE (not a pointer) that has a byte-slice field, directly or in a nested struct value, or a
+// slice of byte slices - storing such a value stores its slices (packet.Addr{MAC}, NameEntry…, []net.IP)
+func carriesBytes(t types.Type, depth int) bool {
+	if t == nil || depth > 3 {
+		return false
+	}
+	switch u := t.Underlying().(type) {
+	case *types.Struct:
+		for i := 0; i < u.NumFields(); i++ {
+			ft := u.Field(i).Type()
+			if isByteSlice(ft) || carriesBytes(ft, depth+1) {
+				return true
+			}
+		}
+	case *types.Slice:
+		return isByteSlice(u.Elem())
+	}
+	return false
+}
+
+// stored: the value of a store is a byte slice, or a struct value carrying byte slices that is not written as a composite
+// literal here (a literal's fields are classified one by one when the walk reaches it)
+func stored(info *types.Info, e ast.Expr) bool {
+	t := info.Types[e].Type
+	if isByteSlice(t) {
+		return true
+	}
+	if _, lit := e.(*ast.CompositeLit); lit {
+		return false
+	}
+	if u, ok := e.(*ast.UnaryExpr); ok {
+		if _, lit := u.X.(*ast.CompositeLit); lit {
+			return false
+		}
+	}
+	return carriesBytes(t, 0)
+}
+
+// valStr renders the stored expression for the site key (what is stored is part of what was reviewed)
+func valStr(e ast.Expr) string {
+	switch x := e.(type) {
+	case *ast.ParenExpr:
+		return valStr(x.X)
+	case *ast.SelectorExpr:
+		return valStr(x.X) + "." + x.Sel.Name
+	case *ast.Ident:
+		return x.Name
+	case *ast.CallExpr:
+		args := make([]string, len(x.Args))
+		for i, a := range x.Args {
+			args[i] = valStr(a)
+		}
+		return valStr(x.Fun) + "(" + strings.Join(args, ",") + ")"
+	case *ast.SliceExpr:
+		return valStr(x.X) + "[:]"
+	case *ast.IndexExpr:
+		return valStr(x.X) + "[]"
+	case *ast.StarExpr:
+		return "*" + valStr(x.X)
+	case *ast.UnaryExpr:
+		return x.Op.String() + valStr(x.X)
+	case *ast.ArrayType:
+		return "[]" + valStr(x.Elt)
+	}
+	return "?"
+}
+
+var debugSites = os.Getenv("GOEXTRACT_SITES") != ""
+
 func retainFacts(pkgs []*packages.Package, b *strings.Builder) {
-	set := map[string]bool{}
+	set := map[string]int{}
+	note := func(key string, n ast.Node) {
+		set[key]++
+		if debugSites {
+			fmt.Fprintf(os.Stderr, "%s\t%s\n", key, fset.Position(n.Pos()))
+		}
+	}
 	goSet := map[string]bool{}
 	for _, p := range pkgs {
 		if !strings.HasPrefix(p.PkgPath, "github.com/irai/packet") || strings.HasSuffix(p.PkgPath, "/fastlog") {
@@ -116,8 +203,8 @@ func retainFacts(pkgs []*packages.Package, b *strings.Builder) {
 							callee = "func"
 						}
 						for _, a := range x.Call.Args {
-							if isByteSlice(info.Types[a].Type) && classify(info, a) == "alias" {
-								goSet[fn+":go "+callee+"("+exprStr(a)+")"] = true
+							if stored(info, a) && classify(info, a) == "alias" {
+								goSet[fn+":go "+callee+"("+valStr(a)+")"] = true
 							}
 						}
 					case *ast.AssignStmt:
@@ -142,8 +229,8 @@ func retainFacts(pkgs []*packages.Package, b *strings.Builder) {
 									target = "map[" + exprStr(l.X) + "]"
 								}
 							}
-							if target != "" && isByteSlice(info.Types[x.Rhs[i]].Type) && classify(info, x.Rhs[i]) == "alias" {
-								set[fn+":"+target] = true
+							if target != "" && stored(info, x.Rhs[i]) && classify(info, x.Rhs[i]) == "alias" {
+								note(fn+":"+target+"="+valStr(x.Rhs[i]), x)
 							}
 						}
 					case *ast.CallExpr:
@@ -152,7 +239,7 @@ func retainFacts(pkgs []*packages.Package, b *strings.Builder) {
 							if st, ok := info.Types[x.Args[0]].Type.Underlying().(*types.Slice); ok && isByteSlice(st.Elem()) && x.Ellipsis == 0 {
 								for _, a := range x.Args[1:] {
 									if classify(info, a) == "alias" {
-										set[fn+":append("+exprStr(x.Args[0])+")"] = true
+										note(fn+":append("+exprStr(x.Args[0])+")="+valStr(a), x)
 									}
 								}
 							}
@@ -170,10 +257,9 @@ func retainFacts(pkgs []*packages.Package, b *strings.Builder) {
 						if nt, ok := tv.Type.(*types.Named); ok {
 							tn = nt.Obj().Name()
 						}
-						// transient value types (addresses handed to calls) are not retention: only stored records
-						if tn == "Addr" || tn == "Frame" || tn == "Notification" || tn == "IPNameEntry" {
-							return true
-						}
+						// no type is exempt (audit: Addr / Frame / Notification literals used to be skipped, which hid
+						// `Host{Addr: Addr{MAC: addr.MAC}}` and `lease.Addr = Addr{MAC: mac}`): transient literals are reviewed
+						// site by site in Props/C10Tie.lean
 						for i, el := range x.Elts {
 							var val ast.Expr
 							name := ""
@@ -186,8 +272,8 @@ func retainFacts(pkgs []*packages.Package, b *strings.Builder) {
 								val = el
 								name = st.Field(i).Name()
 							}
-							if val != nil && isByteSlice(info.Types[val].Type) && classify(info, val) == "alias" {
-								set[fn+":"+tn+"{"+name+"}"] = true
+							if val != nil && stored(info, val) && classify(info, val) == "alias" {
+								note(fn+":"+tn+"{"+name+"}="+valStr(val), val)
 							}
 						}
 					}
@@ -196,8 +282,13 @@ func retainFacts(pkgs []*packages.Package, b *strings.Builder) {
 			}
 		}
 	}
+	// one entry per (function, target) WITH the number of aliasing stores to it: a second store to a reviewed target
+	// changes the entry
 	var l []string
-	for k := range set {
+	for k, n := range set {
+		if n > 1 {
+			k = fmt.Sprintf("%s x%d", k, n)
+		}
 		l = append(l, fmt.Sprintf("%q", k))
 	}
 	sort.Strings(l)
